@@ -16,7 +16,7 @@ BASELINE = "cd /repo && /venv/bin/python -m pytest -ra -q -p no:cacheprovider --
 # id -> (technique, level text, level note, design ref)
 CHECKS = {
     "C01": (
-        "Hypothesis PBT: conservation identity + sign/remainder invariants over generated battery/inverter data, direct and through a real BatteryManager on a fake API",
+        "Hypothesis PBT: conservation identity + sign/remainder invariants over generated battery/inverter data, direct and through a real BatteryManager on a fake API + coverage-guided stage in the thorough tier (atheris/libFuzzer driving the same strategy and oracle through fuzz_one_input)",
         "Generated consistent battery/inverter data sets (1-6 groups, multi-battery/multi-inverter, boundary requests) are "
         "pushed through distribute_power and through BatteryManager; the oracle is the sum identity and sign rules, not a "
         "copy of the algorithm. Exploration level: thousands (quick) to ~3*10^5 (thorough) cases, no absence claim.",
@@ -25,15 +25,14 @@ CHECKS = {
         "DESIGN.md section 3 C01/C02",
     ),
     "C02": (
-        "Hypothesis PBT: per-inverter and per-group bound predicates + zero-headroom rule over the C01 domain",
-        "Same generated domain as C01; oracle = bound predicates recomputed from the input data. One open known finding "
-        "(multi-inverter group whose inverters and batteries both have exclusion bounds) is excluded by an input-class "
-        "predicate and counted. Exploration level.",
-        "Tolerance 1e-6 on the permissive side only; the excluded class is reported in evidence (excluded_by_known_finding).",
+        "Hypothesis PBT: per-inverter and per-group bound predicates + zero-headroom rule over the C01 domain + coverage-guided stage in the thorough tier (atheris/libFuzzer driving the same strategy and oracle through fuzz_one_input)",
+        "Same generated domain as C01; oracle = bound predicates recomputed from the input data; repeated and different "
+        "requests on one long-lived algorithm / manager instance. Exploration level.",
+        "Tolerance 1e-6 on the permissive side only.",
         "DESIGN.md section 3 C01/C02",
     ),
     "C03": (
-        "Hypothesis PBT over proposal histories: envelope invariant after every operation + metamorphic history-freedom (fresh instance, all arrival orders)",
+        "Hypothesis PBT over proposal histories: envelope invariant after every operation + metamorphic history-freedom (fresh instance, all arrival orders) + coverage-guided stage in the thorough tier (atheris/libFuzzer driving the same strategy and oracle through fuzz_one_input)",
         "Histories of propose/replace/expire/bounds-change operations on a real Matryoshka; after every step the target is "
         "checked against the usable-bounds envelope and against a fresh instance fed only the live proposals; at the end all "
         "n! arrival orders are enumerated. Exploration level.",
@@ -41,7 +40,7 @@ CHECKS = {
         "DESIGN.md section 3 C03",
     ),
     "C04": (
-        "Hypothesis PBT: independent exact-rational interval reference model + report/target relation + null-proposal metamorphic check",
+        "Hypothesis PBT: independent exact-rational interval reference model + report/target relation + null-proposal metamorphic check + coverage-guided stage in the thorough tier (atheris/libFuzzer driving the same strategy and oracle through fuzz_one_input)",
         "Conflict-free proposal sets built constructively are compared with a closed-interval reference over Fractions; the "
         "bounds reported to each actor are checked as a relation against what the manager does with that actor's proposal. "
         "Exploration level.",
@@ -88,7 +87,7 @@ CHECKS = {
         "DESIGN.md section 3 C08",
     ),
     "C09": (
-        "Hypothesis model-based testing: update/query histories against a sliding dict model, invariant after every step (list, numpy and MovingWindow containers)",
+        "Hypothesis model-based testing: update/query histories against a sliding dict model, invariant after every step (list, numpy and MovingWindow containers) + coverage-guided stage in the thorough tier (atheris/libFuzzer driving the same strategy and oracle through fuzz_one_input, ring-buffer package instrumented)",
         "Operation histories (in/out of order, off-grid timestamps, gaps, jumps beyond capacity, None/NaN, index and unaligned "
         "datetime queries) are applied to the real buffer and to a dict model; counts, gap slot sets, oldest/newest and every "
         "query result are compared after every step. Exploration level.",
